@@ -25,9 +25,10 @@ CONSTANTS Writers, MaxOps, Dev, Packer        \* Packer \in {"msgpack", "json"}
 \* A, A2 share a NAME; A, Acol share an IDENTIFIER (name + 32-bit hash); H holds nested records;
 \* Z has NO fields (a marker record); U has A's fields and a name that differs from A's only in "/" vs "_"
 \* (the record CLASS name of both is the same -- descriptors are told apart by name + fields, never by class name).
-Descs == {"A", "A2", "Acol", "B", "H", "Z", "U"}
-Ident(d) == CASE d = "A" -> "iA" [] d = "Acol" -> "iA" [] d = "A2" -> "iA2" [] d = "B" -> "iB" [] d = "H" -> "iH" [] d = "Z" -> "iZ" [] d = "U" -> "iU"
-Name(d)  == CASE d \in {"A", "A2", "Acol"} -> "nA" [] d = "B" -> "nB" [] d = "H" -> "nH" [] d = "Z" -> "nZ" [] d = "U" -> "nU"
+\* Dd declares one field name twice (the library accepts that; the definition sent must still be the declared one)
+Descs == {"A", "A2", "Acol", "B", "H", "Z", "U", "Dd"}
+Ident(d) == CASE d = "A" -> "iA" [] d = "Acol" -> "iA" [] d = "A2" -> "iA2" [] d = "B" -> "iB" [] d = "H" -> "iH" [] d = "Z" -> "iZ" [] d = "U" -> "iU" [] d = "Dd" -> "iD"
+Name(d)  == CASE d \in {"A", "A2", "Acol"} -> "nA" [] d = "B" -> "nB" [] d = "H" -> "nH" [] d = "Z" -> "nZ" [] d = "U" -> "nU" [] d = "Dd" -> "nD"
 Keys == {Ident(d) : d \in Descs} \cup {Name(d) : d \in Descs}
 None == "none"
 
